@@ -62,11 +62,14 @@ Definition scen_cmp (sc : scen) : Z :=
   else 1.
 
 (* side conditions of the whole-run conservation theorem (Proofs/SimRunP.v run_conserves_b), evaluated per scenario:
-   bit 0 = every placement package found its order as created (must hold on every scenario), bit 1 = the scenario's books and
-   script are in the theorem's domain (no removed runner, no reconciled starting price, positive ladders) *)
+   bit 0 = every placement package found its order as created, bit 1 = the scenario's books and script are in the domain of the
+   conservation theorem (no removed runner, no reconciled starting price, positive ladders), bit 2 = side condition of the
+   acknowledgement-time theorem C07_run_ack_after_latency (must hold on EVERY scenario) *)
 Definition scen_hyp (sc : scen) : Z :=
   let scr := script_of (sc_script sc) in
   let g := run_guard_b tb_up (sc_cfg sc) (sc_nstrat sc) scr (sc_events sc) (sim0 (sc_markets sc))
            && run_guard_b tb_down (sc_cfg sc) (sc_nstrat sc) scr (sc_events sc) (sim0 (sc_markets sc)) in
   let d := forallb (event_b scr (sc_nstrat sc)) (sc_events sc) in
-  (if g then 1 else 0) + (if d then 2 else 0).
+  let a := run_ack_guard_b tb_up (sc_cfg sc) (sc_nstrat sc) scr (sc_events sc) (sim0 (sc_markets sc))
+           && run_ack_guard_b tb_down (sc_cfg sc) (sc_nstrat sc) scr (sc_events sc) (sim0 (sc_markets sc)) in
+  (if g then 1 else 0) + (if d then 2 else 0) + (if a then 4 else 0).
